@@ -109,7 +109,7 @@ func (s *Session) execDeterminism(line string) (obs string) {
 			if s.notifierLine != "" {
 				s.cfgLog = []string{s.notifierLine, line}
 			}
-		case "epoch", "gasmap", "payable":
+		case "epoch", "gasmap", "payable", "aliasing":
 			s.cfgLog = append(s.cfgLog, line)
 		}
 		obs = safeExec(s.W, line)
